@@ -417,6 +417,31 @@ pub const CONCURRENT_ATOMS: &[(&str, &str)] = &[
     ("cancel-explicit", "import { __cancelOrder__ } from \"tsrun:host\";\nasync function main(){ const v = await order({k: 4}); return v; }"),
 ];
 
+/// The reference program for a host policy: `order` is an in-program function that does
+/// what the scripted host does for the n-th order - returns the value / throws the error
+/// string directly when the policy answers that order immediately, returns a promise
+/// resolved / rejected with it when the policy answers with a promise it settles later.
+/// (An error that arrives through a promise surfaces where the promise is awaited, not at
+/// the call: for orders that are not awaited directly the two are different programs.)
+pub fn reference_program(body: &str, policy: &Policy) -> String {
+    let mask: Vec<&str> = policy.deferred.iter().map(|d| if *d { "true" } else { "false" }).collect();
+    let header = format!(
+        "var __oi = 0; const __dm = [{}];\nfunction order(p) {{ const d = __oi < __dm.length ? __dm[__oi] : {}; __oi++; if (!d) {{ if (p.err !== undefined) {{ throw 'TypeError: ' + p.err; }} return p.k * 2; }} return p.err !== undefined ? Promise.reject('TypeError: ' + p.err) : Promise.resolve(p.k * 2); }}\n",
+        mask.join(", "),
+        policy.deferred_default
+    );
+    let rest = match body.split_once("\nasync function main") {
+        Some((pre, post)) if pre.starts_with("import") => format!("async function main{}", post),
+        _ => body.to_string(),
+    };
+    format!("{}const __log = [];\n{}{}", header, rest, FOOTER)
+}
+
+/// key of the reference a policy needs (policies that differ only in schedule share one)
+pub fn reference_key(policy: &Policy) -> String {
+    format!("{:?}/{}", policy.deferred, policy.deferred_default)
+}
+
 pub fn program(body: &str, real: bool) -> String {
     let (imports, rest) = match body.split_once("\nasync function main") {
         Some((pre, post)) if pre.starts_with("import") => (format!("{}\n", pre), format!("async function main{}", post)),
